@@ -97,14 +97,15 @@ Section RoundTrip.
   Variable F : Type.
   Variable fv : F -> option xq.
   Variable cparse : string -> option (js_cop * xq).
+  Variable cfun : Z -> js_fval -> js_fval.
   Notation jv := (jvalue F).
   Notation psol := (psol F).
   Notation pval := (pval F).
-  Notation dec := (dec F fv cparse).
-  Notation dec_list := (dec_list F fv cparse).
-  Notation dec_fields := (dec_fields F fv cparse).
-  Notation hook := (hook F fv cparse).
-  Notation js_viol := (js_viol F fv cparse).
+  Notation dec := (dec F fv cparse cfun).
+  Notation dec_list := (dec_list F fv cparse cfun).
+  Notation dec_fields := (dec_fields F fv cparse cfun).
+  Notation hook := (hook F fv cparse cfun).
+  Notation js_viol := (js_viol F fv cparse cfun).
   Notation nonan := (nonan F fv).
 
   (* ---- unfolding lemmas for the nested fixpoint ---- *)
@@ -312,17 +313,25 @@ Section RoundTrip.
   (* ---- well-formedness: when the recomputation cannot raise ---- *)
   Definition is_num (j : jv) : bool :=
     match j with JInt _ => true | JBool _ => true | JNum f => is_some (fv f) | _ => false end.
-  Definition cons_ok (cs : list string) : bool := forallb (fun c => is_some (cparse c)) cs.
+  Definition cons_ok (cs : list cdecl) : bool :=
+    forallb (fun c => match c with DOp s => is_some (cparse s) | DFun _ => true end) cs.
+  (* declarations that have a text (operator strings): the ones a file can hold *)
+  Definition all_dop (cs : list cdecl) : bool :=
+    forallb (fun c => match c with DOp _ => true | DFun _ => false end) cs.
+  (* proof helper, only used under all_dop *)
+  Definition decl_text (c : cdecl) : string := match c with DOp s => s | DFun _ => EmptyString end.
 
   Lemma js_terms_ok : forall cs xs, cons_ok cs = true -> forallb is_num xs = true ->
-    exists ts, js_terms F fv cparse cs xs = Ok ts.
+    exists ts, js_terms F fv cparse cfun cs xs = Ok ts.
   Proof.
     induction cs as [|c cs IH]; intros xs Hc Hx; [exists []; reflexivity|].
     destruct xs as [|x xs]; [exists []; reflexivity|].
     simpl in Hc, Hx. apply andb_true_iff in Hc as [Hc1 Hc2]. apply andb_true_iff in Hx as [Hx1 Hx2].
     destruct (IH xs Hc2 Hx2) as [ts E]. cbn [js_terms]. unfold js_term.
-    destruct (cparse c) as [[op y]|]; [|discriminate].
-    destruct x; simpl in Hx1; try discriminate; simpl; rewrite E; simpl; eexists; reflexivity.
+    destruct c as [s|k].
+    - destruct (cparse s) as [[op y]|]; [|discriminate].
+      destruct x; simpl in Hx1; try discriminate; simpl; rewrite E; simpl; eexists; reflexivity.
+    - destruct x; simpl in Hx1; try discriminate; simpl; rewrite E; simpl; eexists; reflexivity.
   Qed.
 
   Lemma js_viol_ok : forall cs xs, cons_ok cs = true -> forallb is_num xs = true ->
@@ -344,7 +353,7 @@ Section RoundTrip.
 
   (* attaching twice = attaching to the last problem (io.py:125-128 after io.py:138-144) *)
   Lemma reattach_one : forall p0 p s o, attach p0 s = Ok o ->
-    reattach F fv cparse p (PSol F o) = (o' <- attach p s ;; Ok (PSol F o')).
+    reattach F fv cparse cfun p (PSol F o) = (o' <- attach p s ;; Ok (PSol F o')).
   Proof.
     intros p0 p s o E. unfold attach in E.
     destruct (js_viol (p_cons p0) (ps_cons F s)); [|discriminate]. simpl in E. inversion E; subst o. clear E.
@@ -353,7 +362,7 @@ Section RoundTrip.
   Qed.
 
   Lemma reattach_attach : forall p0 p sols outs, mapM (attach p0) sols = Ok outs ->
-    mapM (reattach F fv cparse p) (map (PSol F) outs) = (outs' <- mapM (attach p) sols ;; Ok (map (PSol F) outs')).
+    mapM (reattach F fv cparse cfun p) (map (PSol F) outs) = (outs' <- mapM (attach p) sols ;; Ok (map (PSol F) outs')).
   Proof.
     induction sols as [|s r IH]; intros outs H; simpl in H.
     - inversion H; reflexivity.
@@ -380,7 +389,8 @@ Section RoundTrip.
     match sup with None => true | Some p => pshape nv no nc p && cons_ok (p_cons p) end.
   (* the problem of a live algorithm *)
   Definition wf_problem (p : problem) : bool :=
-    Nat.eqb (List.length (p_dirs p)) (p_nobjs p) && Nat.eqb (List.length (p_cons p)) (p_nconstrs p) && cons_ok (p_cons p).
+    Nat.eqb (List.length (p_dirs p)) (p_nobjs p) && Nat.eqb (List.length (p_cons p)) (p_nconstrs p) && cons_ok (p_cons p) &&
+    all_dop (p_cons p).
   Definition wf_algo (a : algo F) : bool :=
     wf_problem (a_problem F a) &&
     wf_sols (p_nvars (a_problem F a)) (p_nobjs (a_problem F a)) (p_nconstrs (a_problem F a)) (a_result F a).
@@ -426,7 +436,7 @@ Section RoundTrip.
 
   Hypothesis H0 : cparse "==0" <> None.
 
-  Lemma cons_ok_default : forall n, cons_ok (repeat "==0"%string n) = true.
+  Lemma cons_ok_default : forall n, cons_ok (repeat (DOp "==0") n) = true.
   Proof.
     induction n as [|n IH]; [reflexivity|]. simpl. rewrite IH.
     destruct (cparse "==0"); [reflexivity|contradiction H0; reflexivity].
@@ -444,7 +454,7 @@ Section RoundTrip.
   Lemma decode_sol_array : forall sup sols nv no nc,
     wf_sols nv no nc sols = true -> wf_supplied nv no nc sup = true ->
     exists st outs,
-      decode F fv cparse false sup (JArr (map (enc_sol F) sols)) = Ok (st, PList F (map (PSol F) outs)) /\
+      decode F fv cparse cfun false sup (JArr (map (enc_sol F) sols)) = Ok (st, PList F (map (PSol F) outs)) /\
       Forall2 (same_as (load_problem sup nv no nc)) sols outs /\
       (sols <> [] -> st = Some (load_problem sup nv no nc)).
   Proof.
@@ -484,13 +494,15 @@ Section RoundTrip.
     rewrite E. cbn [rbind]. rewrite H. reflexivity.
   Qed.
 
-  Lemma assign_cons_enc : forall cs n, cons_ok cs = true -> Nat.eqb (List.length cs) n = true ->
-    assign_cons F cparse n (PList F (map (embed F) (map (fun c => JStr c) cs))) = Ok cs.
+  Lemma assign_cons_enc : forall cs n, all_dop cs = true -> cons_ok cs = true -> Nat.eqb (List.length cs) n = true ->
+    assign_cons F cparse n (PList F (map (embed F) (map (fun c => JStr (decl_text c)) cs))) = Ok cs.
   Proof.
-    intros cs n Hc H. unfold assign_cons.
-    assert (E : mapM (to_constraint F cparse) (map (embed F) (map (fun c => JStr c) cs)) = Ok cs).
-    { clear H. induction cs as [|c r IH]; [reflexivity|]. simpl in Hc. apply andb_true_iff in Hc as [Hc1 Hc2].
-      cbn [map mapM embed to_constraint]. destruct (cparse c); [|discriminate]. cbn [rbind]. rewrite IH by exact Hc2. reflexivity. }
+    intros cs n Hd Hc H. unfold assign_cons.
+    assert (E : mapM (to_constraint F cparse) (map (embed F) (map (fun c => JStr (decl_text c)) cs)) = Ok cs).
+    { clear H. induction cs as [|c r IH]; [reflexivity|]. simpl in Hc, Hd.
+      apply andb_true_iff in Hc as [Hc1 Hc2]. apply andb_true_iff in Hd as [Hd1 Hd2].
+      destruct c as [s|k]; [|discriminate].
+      cbn [map mapM embed to_constraint decl_text]. destruct (cparse s); [|discriminate]. cbn [rbind]. rewrite IH by assumption. reflexivity. }
     rewrite E. cbn [rbind]. rewrite H. reflexivity.
   Qed.
 
@@ -506,6 +518,54 @@ Section RoundTrip.
       Ok (st, PDict F [("name"%string, PStr F nm); ("nfe"%string, PInt F nfe)]).
   Proof. reflexivity. Qed.
 
+  (* the trees the encoder produces when every declaration has a text *)
+  Definition enc_problem_tree (p : problem) : jv :=
+    JObj [ ("name"%string, JStr (p_name p));
+           ("nvars"%string, JInt (Z.of_nat (p_nvars p)));
+           ("nobjs"%string, JInt (Z.of_nat (p_nobjs p)));
+           ("nconstrs"%string, JInt (Z.of_nat (p_nconstrs p)));
+           ("function"%string, opt_str F (p_function p));
+           ("types"%string, JArr (map (opt_str F) (p_types p)));
+           ("directions"%string, JArr (map (fun d => JStr (dir_name d)) (p_dirs p)));
+           ("constraints"%string, JArr (map (fun c => JStr (decl_text c)) (p_cons p))) ].
+  Definition enc_algo_tree (a : algo F) : jv :=
+    JObj [ ("algorithm"%string, JObj [ ("name"%string, JStr (a_name F a)); ("nfe"%string, JInt (a_nfe F a)) ]);
+           ("problem"%string, enc_problem_tree (a_problem F a));
+           ("result"%string, JArr (map (enc_sol F) (a_result F a))) ].
+  Definition encode_tree (x : saved F) : jv :=
+    match x with
+    | SvList _ l => JArr (map (enc_sol F) l)
+    | SvArchive _ l => JArr (map (enc_sol F) l)
+    | SvAlgorithm _ a => enc_algo_tree a
+    end.
+  (* what can be written: an algorithm whose constraints all have a text *)
+  Definition saveable (x : saved F) : bool :=
+    match x with SvAlgorithm _ a => all_dop (p_cons (a_problem F a)) | _ => true end.
+
+  Lemma enc_decls_ok : forall cs, all_dop cs = true ->
+    mapM (enc_decl F) cs = Ok (map (fun c => JStr (decl_text c)) cs).
+  Proof.
+    induction cs as [|c r IH]; intros H; [reflexivity|]. simpl in H. apply andb_true_iff in H as [H1 H2].
+    destruct c; [|discriminate]. cbn [mapM enc_decl rbind map decl_text]. rewrite IH by exact H2. reflexivity.
+  Qed.
+
+  Lemma encode_ok : forall x, saveable x = true -> encode F x = Ok (encode_tree x).
+  Proof.
+    intros [l|l|a] H; try reflexivity. simpl in H.
+    unfold encode, enc_algo, enc_problem. rewrite enc_decls_ok by exact H. reflexivity.
+  Qed.
+
+  (* a callable declaration has no text: saving such an algorithm raises TypeError *)
+  Lemma encode_callable_raises : forall a, all_dop (p_cons (a_problem F a)) = false ->
+    encode F (SvAlgorithm F a) = Err EType.
+  Proof.
+    intros a H. unfold encode, enc_algo, enc_problem.
+    assert (E : mapM (enc_decl F) (p_cons (a_problem F a)) = Err EType).
+    { induction (p_cons (a_problem F a)) as [|c r IH]; [discriminate|]. simpl in H.
+      destruct c; [|reflexivity]. simpl in H. cbn [mapM enc_decl rbind]. rewrite IH by exact H. reflexivity. }
+    rewrite E. reflexivity.
+  Qed.
+
   Definition problem_dict (p : problem) : list (string * pval) :=
     [ ("name"%string, PStr F (p_name p));
       ("nvars"%string, PInt F (Z.of_nat (p_nvars p)));
@@ -514,16 +574,16 @@ Section RoundTrip.
       ("function"%string, embed F (opt_str F (p_function p)));
       ("types"%string, PList F (map (embed F) (map (opt_str F) (p_types p))));
       ("directions"%string, PList F (map (embed F) (map (fun d => JStr (dir_name d)) (p_dirs p))));
-      ("constraints"%string, PList F (map (embed F) (map (fun c => JStr c) (p_cons p)))) ].
+      ("constraints"%string, PList F (map (embed F) (map (fun c => JStr (decl_text c)) (p_cons p)))) ].
 
   Lemma dec_problem_dict : forall o ph p st,
-    dec o ph (enc_problem F p) st = Ok (st, PDict F (problem_dict p)).
+    dec o ph (enc_problem_tree p) st = Ok (st, PDict F (problem_dict p)).
   Proof.
-    intros. unfold enc_problem. rewrite dec_obj.
+    intros. unfold enc_problem_tree. rewrite dec_obj.
     assert (Ofn : objfree (opt_str F (p_function p)) = true) by (destruct (p_function p); reflexivity).
     assert (Od : forallb objfree (map (fun d => @JStr F (dir_name d)) (p_dirs p)) = true)
       by (induction (p_dirs p); simpl; auto).
-    assert (Oc : forallb objfree (map (fun c => @JStr F c) (p_cons p)) = true)
+    assert (Oc : forallb objfree (map (fun c => @JStr F (decl_text c)) (p_cons p)) = true)
       by (induction (p_cons p); simpl; auto).
     rewrite dec_fields_objfree
       by (cbn [forallb snd objfree]; rewrite Ofn, Od, Oc, opt_str_objfree; reflexivity).
@@ -536,10 +596,10 @@ Section RoundTrip.
        no <- p_size F (PInt F (Z.of_nat (p_nobjs p))) ;;
        nc <- p_size F (PInt F (Z.of_nat (p_nconstrs p))) ;;
        ds <- assign_dirs F no (PList F (map (embed F) (map (fun d => JStr (dir_name d)) (p_dirs p)))) ;;
-       cs <- assign_cons F cparse nc (PList F (map (embed F) (map (fun c => JStr c) (p_cons p)))) ;;
+       cs <- assign_cons F cparse nc (PList F (map (embed F) (map (fun c => JStr (decl_text c)) (p_cons p)))) ;;
        let p' := mkProblem Rebuilt "Problem" nv no nc None (repeat None nv) ds cs in
        match R with
-       | PList _ l => l' <- mapM (reattach F fv cparse p') l ;; Ok (Some p', PList F l')
+       | PList _ l => l' <- mapM (reattach F fv cparse cfun p') l ;; Ok (Some p', PList F l')
        | _ => Err EType
        end).
   Proof. reflexivity. Qed.
@@ -551,11 +611,11 @@ Section RoundTrip.
 
   Lemma decode_algorithm_none : forall a, wf_algo a = true ->
     exists outs,
-      decode F fv cparse false None (enc_algo F a) = Ok (Some (rebuilt_of (a_problem F a)), PList F (map (PSol F) outs)) /\
+      decode F fv cparse cfun false None (enc_algo_tree a) = Ok (Some (rebuilt_of (a_problem F a)), PList F (map (PSol F) outs)) /\
       Forall2 (same_as (rebuilt_of (a_problem F a))) (a_result F a) outs.
   Proof.
     intros a Hw. unfold wf_algo in Hw. apply andb_true_iff in Hw as [Hp Hs].
-    unfold wf_problem in Hp. apply andb_true_iff in Hp as [Hp Hck]. apply andb_true_iff in Hp as [Hd Hc].
+    unfold wf_problem in Hp. apply andb_true_iff in Hp as [Hp Hdop]. apply andb_true_iff in Hp as [Hp Hck]. apply andb_true_iff in Hp as [Hd Hc].
     set (p := a_problem F a) in *. set (sols := a_result F a) in *.
     destruct (wf_sols_parts _ _ _ _ Hs) as (Sh & Of & Nm & _).
     (* against the placeholder *)
@@ -566,7 +626,7 @@ Section RoundTrip.
     assert (Ck1 : cons_ok (p_cons (rebuilt_of p)) = true) by exact Hck.
     destruct (mapM_attach_ok (rebuilt_of p) sols Ck1 Nm) as [outs E1].
     exists outs. split; [|apply mapM_attach_same; exact E1].
-    unfold decode, enc_algo. fold p sols. rewrite dec_obj. cbn [dec_fields].
+    unfold decode, enc_algo_tree. fold p sols. rewrite dec_obj. cbn [dec_fields].
     rewrite dec_algorithm_dict. cbn [rbind fst snd].
     rewrite dec_problem_dict. cbn [rbind fst snd].
     rewrite dec_arr, dec_list_enc_sols by exact Of.
@@ -591,7 +651,7 @@ Section RoundTrip.
   Lemma decode_algorithm_some : forall a q, wf_algo a = true ->
     wf_supplied (p_nvars (a_problem F a)) (p_nobjs (a_problem F a)) (p_nconstrs (a_problem F a)) (Some q) = true ->
     exists outs,
-      decode F fv cparse false (Some q) (enc_algo F a) = Ok (Some q, PList F (map (PSol F) outs)) /\
+      decode F fv cparse cfun false (Some q) (enc_algo_tree a) = Ok (Some q, PList F (map (PSol F) outs)) /\
       Forall2 (same_as q) (a_result F a) outs.
   Proof.
     intros a q Hw Hq. unfold wf_algo in Hw. apply andb_true_iff in Hw as [Hp Hs].
@@ -600,7 +660,7 @@ Section RoundTrip.
     simpl in Hq. apply andb_true_iff in Hq as [Hq1 Hq2].
     destruct (mapM_attach_ok q sols Hq2 Nm) as [outs E].
     exists outs. split; [|apply mapM_attach_same; exact E].
-    unfold decode, enc_algo. fold p sols. rewrite dec_obj. cbn [dec_fields].
+    unfold decode, enc_algo_tree. fold p sols. rewrite dec_obj. cbn [dec_fields].
     rewrite dec_algorithm_dict. cbn [rbind fst snd].
     rewrite dec_problem_dict. cbn [rbind fst snd].
     rewrite dec_arr, dec_list_enc_sols by exact Of.
@@ -613,16 +673,17 @@ End RoundTrip.
 (* file-level round trips: load_json (save_json x)                    *)
 (* ------------------------------------------------------------------ *)
 Definition algo_roundtrip_stmt (F T : Type) (fv : F -> option xq) (cparse : string -> option (js_cop * xq))
-  (pr : F -> T) (pa : T -> F) (old : bool) (a : algo F) : Prop :=
+  (cfun : Z -> js_fval -> js_fval) (pr : F -> T) (pa : T -> F) (old : bool) (a : algo F) : Prop :=
   exists outs,
-    load_json_gen F fv cparse T pa old None (save_json F T pr (SvAlgorithm F a))
+    save_then_load F fv cparse cfun T pr pa old None (SvAlgorithm F a)
       = Ok (Some (rebuilt_of (a_problem F a)), PList F (map (PSol F) outs)) /\
-    Forall2 (same_as F fv cparse (rebuilt_of (a_problem F a))) (a_result F a) outs.
+    Forall2 (same_as F fv cparse cfun (rebuilt_of (a_problem F a))) (a_result F a) outs.
 
 Section Files.
   Variables F T : Type.
   Variable fv : F -> option xq.
   Variable cparse : string -> option (js_cop * xq).
+  Variable cfun : Z -> js_fval -> js_fval.
   Variable pr : F -> T.
   Variable pa : T -> F.
   Hypothesis RT : forall f, fv f <> None -> pa (pr f) = f.
@@ -636,34 +697,35 @@ Section Files.
     intros nv no nc sols H. destruct (wf_sols_parts F fv nv no nc sols H) as (_ & _ & _ & D). exact D.
   Qed.
 
-  Lemma nonan_enc_problem : forall p, nonan (enc_problem F p) = true.
+  Lemma nonan_enc_problem : forall p, nonan (enc_problem_tree F p) = true.
   Proof.
-    intros p. unfold JsonProofs.nonan, enc_problem. cbn [jall forallb].
+    intros p. unfold JsonProofs.nonan, enc_problem_tree. cbn [jall forallb].
     assert (A : forall l, forallb (jall (fun f : F => is_some (fv f))) (map (opt_str F) l) = true)
       by (induction l as [|[s|] r IH]; simpl; auto).
     assert (B : forallb (jall (fun f : F => is_some (fv f))) (map (fun d => JStr (dir_name d)) (p_dirs p)) = true)
       by (induction (p_dirs p); simpl; auto).
-    assert (C : forallb (jall (fun f : F => is_some (fv f))) (map (fun c => JStr c) (p_cons p)) = true)
+    assert (C : forallb (jall (fun f : F => is_some (fv f))) (map (fun c => JStr (decl_text c)) (p_cons p)) = true)
       by (induction (p_cons p); simpl; auto).
     rewrite A, B, C. destruct (p_function p); reflexivity.
   Qed.
 
-  Lemma load_save : forall old sup x, nonan (encode F x) = true ->
-    load_json_gen F fv cparse T pa old sup (save_json F T pr x) = decode F fv cparse old sup (encode F x).
+  Lemma load_save : forall old sup x, saveable F x = true -> nonan (encode_tree F x) = true ->
+    save_then_load F fv cparse cfun T pr pa old sup x = decode F fv cparse cfun old sup (encode_tree F x).
   Proof.
-    intros old sup x H. unfold load_json_gen, save_json. rewrite (jmap_roundtrip F T fv pr pa RT) by exact H. reflexivity.
+    intros old sup x Hs H. unfold save_then_load, save_json, load_json_gen. rewrite (encode_ok F x Hs). cbn [rbind].
+    rewrite (jmap_roundtrip F T fv pr pa RT) by exact H. reflexivity.
   Qed.
 
   (* written from a Python list *)
   Lemma json_roundtrip_list : forall sup sols nv no nc,
     wf_sols F fv nv no nc sols = true -> wf_supplied cparse nv no nc sup = true ->
     exists st outs,
-      load_json F fv cparse T pa sup (save_json F T pr (SvList F sols)) = Ok (st, PList F (map (PSol F) outs)) /\
-      Forall2 (same_as F fv cparse (load_problem sup nv no nc)) sols outs /\
+      save_then_load F fv cparse cfun T pr pa false sup (SvList F sols) = Ok (st, PList F (map (PSol F) outs)) /\
+      Forall2 (same_as F fv cparse cfun (load_problem sup nv no nc)) sols outs /\
       (sols <> [] -> st = Some (load_problem sup nv no nc)).
   Proof.
-    intros sup sols nv no nc Hw Hs. unfold load_json.
-    rewrite load_save by (apply (nonan_sol_array nv no nc); exact Hw).
+    intros sup sols nv no nc Hw Hs.
+    rewrite load_save by (try reflexivity; apply (nonan_sol_array nv no nc); exact Hw).
     apply decode_sol_array; assumption.
   Qed.
 
@@ -671,30 +733,43 @@ Section Files.
   Lemma json_roundtrip_archive : forall sup sols nv no nc,
     wf_sols F fv nv no nc sols = true -> wf_supplied cparse nv no nc sup = true ->
     exists st outs,
-      load_json F fv cparse T pa sup (save_json F T pr (SvArchive F sols)) = Ok (st, PList F (map (PSol F) outs)) /\
-      Forall2 (same_as F fv cparse (load_problem sup nv no nc)) sols outs /\
+      save_then_load F fv cparse cfun T pr pa false sup (SvArchive F sols) = Ok (st, PList F (map (PSol F) outs)) /\
+      Forall2 (same_as F fv cparse cfun (load_problem sup nv no nc)) sols outs /\
       (sols <> [] -> st = Some (load_problem sup nv no nc)).
   Proof.
-    intros sup sols nv no nc Hw Hs. unfold load_json.
-    rewrite load_save by (apply (nonan_sol_array nv no nc); exact Hw).
+    intros sup sols nv no nc Hw Hs.
+    rewrite load_save by (try reflexivity; apply (nonan_sol_array nv no nc); exact Hw).
     apply decode_sol_array; assumption.
   Qed.
 
-  Lemma nonan_enc_algo : forall a, wf_algo F fv cparse a = true -> nonan (encode F (SvAlgorithm F a)) = true.
+  Lemma wf_algo_saveable : forall a, wf_algo F fv cparse a = true -> saveable F (SvAlgorithm F a) = true.
+  Proof.
+    intros a H. unfold wf_algo in H. apply andb_true_iff in H as [Hp _].
+    unfold wf_problem in Hp. apply andb_true_iff in Hp as [_ Hd]. exact Hd.
+  Qed.
+
+  Lemma nonan_enc_algo : forall a, wf_algo F fv cparse a = true -> nonan (encode_tree F (SvAlgorithm F a)) = true.
   Proof.
     intros a H. unfold wf_algo in H. apply andb_true_iff in H as [_ Hs].
     pose proof (nonan_sol_array _ _ _ _ Hs) as N. pose proof (nonan_enc_problem (a_problem F a)) as P.
-    unfold JsonProofs.nonan in *. cbn [encode enc_algo jall forallb] in *. rewrite P, N. reflexivity.
+    unfold JsonProofs.nonan in *. cbn [encode_tree enc_algo_tree jall forallb] in *. rewrite P, N. reflexivity.
   Qed.
 
   (* written from a live algorithm, no problem supplied on load: the saved problem is rebuilt,
      every solution is attached to it, violation/feasibility are recomputed against the SAVED constraints *)
   Lemma json_roundtrip_algorithm : forall a, wf_algo F fv cparse a = true ->
-    algo_roundtrip_stmt F T fv cparse pr pa false a.
+    algo_roundtrip_stmt F T fv cparse cfun pr pa false a.
   Proof.
     intros a H. unfold algo_roundtrip_stmt.
-    rewrite load_save by (apply nonan_enc_algo; exact H).
+    rewrite load_save by (try apply wf_algo_saveable; try apply nonan_enc_algo; exact H).
     apply decode_algorithm_none; assumption.
+  Qed.
+
+  (* an algorithm whose problem declares a constraint by a function cannot be written at all (TypeError) *)
+  Lemma json_algorithm_callable_raises : forall old sup a, all_dop (p_cons (a_problem F a)) = false ->
+    save_then_load F fv cparse cfun T pr pa old sup (SvAlgorithm F a) = Err EType.
+  Proof.
+    intros old sup a H. unfold save_then_load, save_json. rewrite (encode_callable_raises F a H). reflexivity.
   Qed.
 
   (* the rebuilt problem has the saved shape, directions and constraint declarations *)
@@ -708,11 +783,11 @@ Section Files.
   Lemma json_roundtrip_algorithm_supplied : forall a q, wf_algo F fv cparse a = true ->
     wf_supplied cparse (p_nvars (a_problem F a)) (p_nobjs (a_problem F a)) (p_nconstrs (a_problem F a)) (Some q) = true ->
     exists outs,
-      load_json F fv cparse T pa (Some q) (save_json F T pr (SvAlgorithm F a)) = Ok (Some q, PList F (map (PSol F) outs)) /\
-      Forall2 (same_as F fv cparse q) (a_result F a) outs.
+      save_then_load F fv cparse cfun T pr pa false (Some q) (SvAlgorithm F a) = Ok (Some q, PList F (map (PSol F) outs)) /\
+      Forall2 (same_as F fv cparse cfun q) (a_result F a) outs.
   Proof.
-    intros a q H Hq. unfold load_json.
-    rewrite load_save by (apply nonan_enc_algo; exact H).
+    intros a q H Hq.
+    rewrite load_save by (try apply wf_algo_saveable; try apply nonan_enc_algo; exact H).
     apply decode_algorithm_some; assumption.
   Qed.
 
@@ -874,6 +949,12 @@ Section Feasible.
     split; intros E; [apply H0; lra | apply H0 in E; lra].
   Qed.
 
+  Lemma js_fzero_fabs : forall w, js_fzero (js_fabs w) = js_fzero w.
+  Proof.
+    intros [[|q|]|]; try reflexivity. unfold js_fabs, js_xabs. rewrite fzero_abs_fin, fzero_fin.
+    apply beq_iff. rewrite andb_true_iff, !Qle_bool_iff, Qeq_bool_iff. split; intros; [split|]; lra.
+  Qed.
+
   (* one term of the sum is zero exactly when the declared relation holds (finite threshold) *)
   Lemma js_term_zero_iff : forall op q x, js_fzero (js_fabs (js_cfun op (Fin q) x)) = js_holds op (Fin q) x.
   Proof.
@@ -912,36 +993,47 @@ Section FeasibleViol.
   Variable F : Type.
   Variable fv : F -> option xq.
   Variable cparse : string -> option (js_cop * xq).
+  Variable cfun : Z -> js_fval -> js_fval.
 
-  (* the relation of one (declaration, value) pair; false when it cannot be evaluated *)
-  Definition pair_holds (c : string) (x : jvalue F) : bool :=
-    match cparse c, js_numval F fv x with
-    | Some (op, y), Ok v => js_holds op y v
-    | _, _ => false
+  (* what one (declaration, value) pair demands: the operator's relation, or - for a callable - that it returns 0
+     ("any non-zero value is a violation"); false when it cannot be evaluated *)
+  Definition pair_holds (c : cdecl) (x : jvalue F) : bool :=
+    match c, js_numval F fv x with
+    | DOp s, Ok v => match cparse s with Some (op, y) => js_holds op y v | None => false end
+    | DFun k, Ok v => js_fzero (cfun k v)
+    | _, Err _ => false
     end.
-  Definition finite_thresholds (cs : list string) : Prop :=
-    forall c op y, In c cs -> cparse c = Some (op, y) -> exists q, y = Fin q.
+  Definition finite_thresholds (cs : list cdecl) : Prop :=
+    forall s op y, In (DOp s) cs -> cparse s = Some (op, y) -> exists q, y = Fin q.
 
-  (* solution.feasible (violation == 0.0) holds exactly when every declared relation holds *)
+  (* solution.feasible (violation == 0.0) holds exactly when every declaration is satisfied *)
   Lemma js_feasible_iff : forall cs xs v, finite_thresholds cs ->
-    js_viol F fv cparse cs xs = Ok v ->
+    js_viol F fv cparse cfun cs xs = Ok v ->
     js_fzero v = forallb (fun p => pair_holds (fst p) (snd p)) (combine cs xs).
   Proof.
     intros cs xs v Hfin H. unfold js_viol in H.
-    destruct (js_terms F fv cparse cs xs) as [ts|e] eqn:E; [|discriminate]. simpl in H. inversion H; subst v. clear H.
+    destruct (js_terms F fv cparse cfun cs xs) as [ts|e] eqn:E; [|discriminate]. simpl in H. inversion H; subst v. clear H.
     assert (A : Forall nonneg ts /\ forallb js_fzero ts = forallb (fun p => pair_holds (fst p) (snd p)) (combine cs xs)).
     { revert xs ts E. induction cs as [|c cs IH]; intros xs ts E.
       - simpl in E. inversion E. split; [constructor|reflexivity].
       - destruct xs as [|x xs]; [simpl in E; inversion E; split; [constructor|reflexivity]|].
         cbn [js_terms] in E. unfold js_term in E.
-        destruct (cparse c) as [[op y]|] eqn:Ec; [|discriminate].
-        destruct (js_numval F fv x) as [vx|e] eqn:Ex; [|discriminate]. cbn [rbind] in E.
-        destruct (js_terms F fv cparse cs xs) as [ts'|e] eqn:E'; [|discriminate]. cbn [rbind] in E. inversion E; subst ts.
-        destruct (IH (fun c0 op0 y0 Hin => Hfin c0 op0 y0 (or_intror Hin)) xs ts' E') as [N Z].
-        split; [constructor; [apply fabs_nonneg|exact N]|].
-        cbn [combine forallb fst snd]. f_equal; [|exact Z]. unfold pair_holds. rewrite Ec, Ex.
-        destruct (Hfin c op y (or_introl eq_refl) Ec) as [q Eq]. subst y.
-        apply js_term_zero_iff. }
+        assert (Hfin' : finite_thresholds cs) by (intros s0 op0 y0 Hin; apply (Hfin s0 op0 y0); right; exact Hin).
+        destruct c as [s|k].
+        + destruct (cparse s) as [[op y]|] eqn:Ec; [|discriminate].
+          destruct (js_numval F fv x) as [vx|e] eqn:Ex; [|discriminate]. cbn [rbind] in E.
+          destruct (js_terms F fv cparse cfun cs xs) as [ts'|e] eqn:E'; [|discriminate]. cbn [rbind] in E. inversion E; subst ts.
+          destruct (IH Hfin' xs ts' E') as [N Z].
+          split; [constructor; [apply fabs_nonneg|exact N]|].
+          cbn [combine forallb fst snd]. f_equal; [|exact Z]. unfold pair_holds. rewrite Ec, Ex.
+          destruct (Hfin s op y (or_introl eq_refl) Ec) as [q Eq]. subst y.
+          apply js_term_zero_iff.
+        + destruct (js_numval F fv x) as [vx|e] eqn:Ex; [|discriminate]. cbn [rbind] in E.
+          destruct (js_terms F fv cparse cfun cs xs) as [ts'|e] eqn:E'; [|discriminate]. cbn [rbind] in E. inversion E; subst ts.
+          destruct (IH Hfin' xs ts' E') as [N Z].
+          split; [constructor; [apply fabs_nonneg|exact N]|].
+          cbn [combine forallb fst snd]. f_equal; [|exact Z]. unfold pair_holds. rewrite Ex.
+          apply js_fzero_fabs. }
     destruct A as [N Z]. rewrite js_sum_zero by exact N. exact Z.
   Qed.
 End FeasibleViol.
@@ -991,12 +1083,12 @@ Proof. vm_compute. reflexivity. Qed.
 (* the repaired decoder: problem rebuilt with the saved direction/constraint, feasibility w.r.t. "<=0.5" *)
 Example ex_algo_repaired :
   exists outs,
-    load_json Z f64_val ex_cparse Z xid None (save_json Z Z xid (SvAlgorithm Z ex_algo))
+    load_json Z f64_val ex_cparse ex_cfun Z xid None (save_json Z Z xid (SvAlgorithm Z ex_algo))
       = Ok (Some (rebuilt_of ex_problem), PList Z (map (PSol Z) outs)) /\
     map (ps_feas Z) outs = [true; false] /\
     p_dirs (rebuilt_of ex_problem) = [Maximize] /\ p_cons (rebuilt_of ex_problem) = ["<=0.5"%string].
 Proof.
-  exists (sols_of (load_json Z f64_val ex_cparse Z xid None (save_json Z Z xid (SvAlgorithm Z ex_algo)))).
+  exists (sols_of (load_json Z f64_val ex_cparse ex_cfun Z xid None (save_json Z Z xid (SvAlgorithm Z ex_algo)))).
   split; [vm_compute; reflexivity | repeat split].
 Qed.
 
@@ -1004,18 +1096,18 @@ Qed.
    MINIMIZE, "==0", and the first solution is reported infeasible *)
 Example ex_algo_old_decoder :
   exists outs,
-    load_json_old Z f64_val ex_cparse Z xid None (save_json Z Z xid (SvAlgorithm Z ex_algo))
+    load_json_old Z f64_val ex_cparse ex_cfun Z xid None (save_json Z Z xid (SvAlgorithm Z ex_algo))
       = Ok (Some (new_problem Placeholder 1 1 1), PList Z (map (PSol Z) outs)) /\
     map (ps_feas Z) outs = [false; false] /\
     p_dirs (new_problem Placeholder 1 1 1) = [Minimize] /\ p_cons (new_problem Placeholder 1 1 1) = ["==0"%string].
 Proof.
-  exists (sols_of (load_json_old Z f64_val ex_cparse Z xid None (save_json Z Z xid (SvAlgorithm Z ex_algo)))).
+  exists (sols_of (load_json_old Z f64_val ex_cparse ex_cfun Z xid None (save_json Z Z xid (SvAlgorithm Z ex_algo)))).
   split; [vm_compute; reflexivity | repeat split].
 Qed.
 
 Lemma json_decoder_old_refuted :
   exists a, wf_algo Z f64_val ex_cparse a = true /\
-            ~ algo_roundtrip_stmt Z Z f64_val ex_cparse xid xid true a.
+            ~ algo_roundtrip_stmt Z Z f64_val ex_cparse ex_cfun xid xid true a.
 Proof.
   exists ex_algo. split; [exact ex_algo_wf|].
   intros [outs [E _]]. vm_compute in E. discriminate E.
@@ -1037,11 +1129,11 @@ Proof. vm_compute. repeat split. Qed.
 
 Example ex_sols_feasibility :
   exists st outs,
-    load_json Z f64_val ex_cparse Z xid (Some ex_supplied) (save_json Z Z xid (SvList Z ex_sols))
+    load_json Z f64_val ex_cparse ex_cfun Z xid (Some ex_supplied) (save_json Z Z xid (SvList Z ex_sols))
       = Ok (st, PList Z (map (PSol Z) outs)) /\ map (ps_feas Z) outs = [true; false].
 Proof.
   exists (Some ex_supplied).
-  exists (sols_of (load_json Z f64_val ex_cparse Z xid (Some ex_supplied) (save_json Z Z xid (SvList Z ex_sols)))).
+  exists (sols_of (load_json Z f64_val ex_cparse ex_cfun Z xid (Some ex_supplied) (save_json Z Z xid (SvList Z ex_sols)))).
   split; [vm_compute; reflexivity | reflexivity].
 Qed.
 
@@ -1051,8 +1143,8 @@ Proof. vm_compute. reflexivity. Qed.
 (* non-vacuity of js_feasible_iff: finite thresholds, a feasible and an infeasible value vector *)
 Example ex_feasible_iff :
   finite_thresholds ex_cparse ["==0"%string; "<=0.5"%string] /\
-  (exists v, js_viol Z f64_val ex_cparse ["==0"%string; "<=0.5"%string] [JNum b_negzero; JNum b_quarter] = Ok v /\ js_fzero v = true) /\
-  (exists v, js_viol Z f64_val ex_cparse ["==0"%string; "<=0.5"%string] [JNum b_negzero; JNum b_3quarter] = Ok v /\ js_fzero v = false).
+  (exists v, js_viol Z f64_val ex_cparse ex_cfun ["==0"%string; "<=0.5"%string] [JNum b_negzero; JNum b_quarter] = Ok v /\ js_fzero v = true) /\
+  (exists v, js_viol Z f64_val ex_cparse ex_cfun ["==0"%string; "<=0.5"%string] [JNum b_negzero; JNum b_3quarter] = Ok v /\ js_fzero v = false).
 Proof.
   split; [|split; eexists; split; vm_compute; reflexivity].
   intros c op y [H|[H|[]]] E; subst c; vm_compute in E; inversion E; subst; eexists; reflexivity.
